@@ -315,7 +315,9 @@ def base_case(draw, name, max_len=8, max_src=4, steps="full", min_len=0, min_src
         elif choice == 4:
             v["initial"] = uids.fix(("GR", "eq", "ValueError"))  # ... or that cannot be compared at all
     elif name == "reduce_builtin":
-        params["op"] = draw(st.sampled_from(["add", "max", "add"]))
+        params["op"] = draw(st.sampled_from(["add", "max", "add", "none"]))
+        if params["op"] == "none" and draw(st.booleans()):
+            srcs[0]["items"] = srcs[0]["items"][:draw(st.integers(0, 1))]
         if draw(st.integers(0, 2)) == 0:
             v["initial"] = draw(st.sampled_from([["i", 0], ["i", 5], ["l", []], ["f", 0.5]]))
     elif name in ("nlargest", "nsmallest"):
